@@ -11,7 +11,7 @@ EXTENDS FLexer, FGrammar, TLC
 CONSTANT K
 
 \* code points; -1 stands for the invalid byte 0xFF
-Chars == {97, 39, 34, 92, 10, 13, 9, 0, 8, 12, 11, 49, 110, 233, 20013, 8232, 133, 120, 117, -1}
+Chars == {97, 39, 34, 92, 10, 13, 9, 0, 8, 12, 11, 49, 110, 233, 20013, 38745, 65509, 8232, 133, 120, 117, -1}
 Utf8(c) == IF c = -1 THEN <<255>> ELSE Encode(c)
 
 HexLo == <<48,49,50,51,52,53,54,55,56,57,97,98,99,100,101,102>>
